@@ -1,4 +1,4 @@
 From Coq Require Extraction.
 From Coq Require Import ExtrOcamlBasic.
 From RM Require Import C02.Driver.
-Extraction "c02_model.ml" run_encode run_observe.
+Extraction "c02_model.ml" run_encode run_observe run_encode_stream.
